@@ -145,9 +145,12 @@ def gen_recipes(rng, n):
         elif r < 0.8:
             h, w = rng.randint(1, 5), rng.randint(1, 4)
             area = [[100 * i + j for j in range(w)] for i in range(h)]
+            if rng.random() < 0.3:           # an error value stored somewhere in the area: it is the value of THAT cell only
+                area[rng.randrange(h)][rng.randrange(w)] = rng.choice(['#N/A', '#REF!', '#VALUE!'])
+            an = rng.choice([1, 1, 1, 2, 3, 0])
             rr = rng.randint(-1, h + 2)
             cc = rng.choice([None, rng.randint(0, w + 2), rng.randint(1, w)])
-            out.append({'kind': 'index', 'area': C.jenc(area), 'r': rr, 'c': cc, 'an': 1})
+            out.append({'kind': 'index', 'area': C.jenc(area), 'r': rr, 'c': cc, 'an': an})
         elif r < 0.88:
             from openpyxl.utils import get_column_letter
             out.append({'kind': 'column', 'letters': get_column_letter(rng.choice([1, 2, 26, 27, 52, 702, 703, 16384, rng.randint(1, 16384)])),
@@ -176,7 +179,7 @@ def gen_formula_recipes(rng, n):
         cells = {}
         table = []
         for i, k in enumerate(ks):
-            row = [k, 100 + i, 'v%d' % i]
+            row = [k, 100 + i if rng.random() > 0.12 else rng.choice(['#N/A', '#VALUE!', '#DIV/0!']), 'v%d' % i]
             table.append(row)
             for j, v in enumerate(row):
                 if type(v).__name__ != 'EmptyCell':
